@@ -56,7 +56,7 @@ Lemma run_sop_sim : forall t p o f,
     run_sop sc decode fl t o = (t', ei, ea) /\ fstep sc decode fl now p f = (p', ei, ea) /\ sim t' p'.
 Proof.
   intros t p o f (S1 & S2 & S3 & S4 & S5 & S6) C.
-  destruct o as [txt spec|txt spec| | | | | | |a b|]; destruct f as [m|m| |]; cbn [corr] in C; try contradiction.
+  destruct o as [txt spec|txt spec| | | | | | |a b|t1 m1|t1 m1|]; destruct f as [m|m| |]; cbn [corr] in C; try contradiction.
   - destruct C as (C1 & C2 & C3 & C4).
     cbn [run_sop fstep]. unfold send_i, side_op, step_op. cbn [run_op]. rewrite S1, C1, C2, C3, C4, S5. cbn [negb].
     destruct (send sc now (pa_i p) m 0 false) as [[ok s] e]. rewrite outs_ret.
